@@ -268,6 +268,7 @@ type vrWorld struct {
 	locked  map[types.FileContractID]bool
 	nextSlot int
 
+	lastTrim bool
 	monitors bool // off in the undisciplined (correspondence-only) cases
 	accepted int
 	nonce    uint64
@@ -1180,6 +1181,16 @@ func (w *vrWorld) poolRoot() types.Hash256 { return w.roots[w.rng.Intn(len(w.roo
 
 // randAction draws an updater action for a list of length n: mostly valid, boundary dense.
 func (w *vrWorld) randAction(n int) contracts.SectorChange {
+	if w.lastTrim && w.rng.Intn(2) == 0 { // trim followed by append within one commit
+		w.lastTrim = false
+		return contracts.SectorChange{Action: contracts.SectorActionAppend, Root: w.poolRoot()}
+	}
+	a := w.randAction0(n)
+	w.lastTrim = a.Action == contracts.SectorActionTrim && a.A > 0
+	return a
+}
+
+func (w *vrWorld) randAction0(n int) contracts.SectorChange {
 	idx := func() uint64 {
 		switch r := w.rng.Intn(12); {
 		case n > 0 && r < 8:
